@@ -136,7 +136,8 @@ impl AtomicBuffer {
 
     #[inline]
     pub fn bounds_check(&self, idx: Index, len: Index) {
-        assert!((idx + len) <= self.len)
+        // negative offsets and lengths are rejected; the sum is computed in 64 bits so it cannot wrap
+        assert!(idx >= 0 && len >= 0 && (idx as i64 + len as i64) <= self.len as i64)
     }
 
     #[inline]
